@@ -149,6 +149,7 @@ def run(ch, params, decoded=False):
     # ---- op 0: pristine fault-free render (counting run) -------------------------------------------
     reg0 = world.registries()
     res0, refs0 = render_once(prog, classes, w, budget)
+    steps0 = max(1, R.LAST_STEPS[0])  # library calls of the pristine render: the deterministic measure of one render's cost
     n_callbacks = w.main.fp_count
     log0 = list(w.main.fp_log)
     pristine = (res0[0], R.normalise(res0[1])) if res0[0] == "ok" else tuple(res0[:2])
@@ -200,7 +201,8 @@ def run(ch, params, decoded=False):
 
     # ---- fault sweep ---------------------------------------------------------------------------------
     if not violations and n_callbacks > 0 and pristine[0] == "ok":
-        k = min(n_callbacks, params["max_faults"])
+        # the sweep is bounded by work, not by wall time: (failing + follow-up render) x k library calls <= work_cap
+        k = min(n_callbacks, params["max_faults"], max(6, params.get("work_cap", 3_000_000) // (2 * steps0)))
         if k >= n_callbacks:
             indices = list(range(1, n_callbacks + 1))
             # the sweep is complete for this program; record the draws anyway so that replay stays aligned
@@ -300,6 +302,7 @@ def run(ch, params, decoded=False):
         if not violations and indices:
             fi = indices[ch.draw(len(indices), "growth_index")]
             exc_kind = ch.draw(len(world.exc_kinds()), "growth_exc")
+            reps = min(params["growth_reps"], max(4, params.get("work_cap", 3_000_000) // (4 * steps0)))
             for which, fa in (("failing", fi), ("successful", None)):
                 for _ in range(2):
                     render_once(prog, classes, w, budget, fault_at=fa, exc_kind=exc_kind)
@@ -307,7 +310,7 @@ def run(ch, params, decoded=False):
                 gc.collect()
                 sizes0 = module_container_sizes()
                 n0 = len(gc.get_objects())
-                for _ in range(params["growth_reps"]):
+                for _ in range(reps):
                     render_once(prog, classes, w, budget, fault_at=fa, exc_kind=exc_kind)
                     w.main.fired = None
                 gc.collect()
@@ -315,12 +318,12 @@ def run(ch, params, decoded=False):
                 sizes1 = module_container_sizes()
                 grown = {k: sizes1[k] - sizes0.get(k, 0) for k in sizes1 if sizes1[k] > sizes0.get(k, 0)}
                 if grown:
-                    violate("GROWTH", [which, sorted(grown)], {"containers": grown, "repetitions": params["growth_reps"],
+                    violate("GROWTH", [which, sorted(grown)], {"containers": grown, "repetitions": reps,
                                                                 "fault_at": fa})
                     break
                 if n1 > n0:
                     violate("GROWTH", [which, "gc-objects"], {"gc_objects_before": n0, "after": n1,
-                                                              "repetitions": params["growth_reps"], "fault_at": fa})
+                                                              "repetitions": reps, "fault_at": fa})
                     break
                 stats["probe:growth_checked"] = stats.get("probe:growth_checked", 0) + 1
 
